@@ -4786,7 +4786,7 @@ namespace awkward {
     }
 
     else {
-      if (advanced.length() != carry.length()) {
+      if (advanced.length() < carry.length()) {
         throw std::invalid_argument(
           std::string("cannot fit the pairing of an earlier array index (length ")
           + std::to_string(advanced.length()) + std::string(") to this dimension (length ")
